@@ -131,6 +131,13 @@ pub async fn drive(sim: &Sim, case: &PairCase) -> PairRun {
     // transactions waiting for the outstation task to reach a lock point: (site, occurrences to skip, updates)
     let lockq: Arc<Mutex<Vec<(String, u32, Vec<UpdateOp>)>>> = Arc::new(Mutex::new(Vec::new()));
     let tracker = Arc::new(Mutex::new(crate::verif::nodes::outstation::StaticTracker::new(&case.ocfg)));
+    if case.ocfg.controls_update_db {
+        out.rec.lock().unwrap().db_on_operate = Some(crate::verif::nodes::outstation::DbOnOperate {
+            tracker: tracker.clone(),
+            updates: updates.clone(),
+            count: 0,
+        });
+    }
     {
         let lockq = lockq.clone();
         let updates = updates.clone();
